@@ -679,13 +679,18 @@ def spec_mout(I, st, a, k, n):
 
 
 _RNG_ITER = z3.Function("rng_iter", z3.IntSort(), z3.IntSort(), z3.IntSort())
-
-
 _RI_T, _RI_Q = z3.Int("rngit_t"), z3.Int("rngit_q")
 _RI_AX = [z3.ForAll([_RI_T], _RNG_ITER(_RI_T, 0) == _RI_T),
           z3.ForAll([_RI_T, _RI_Q], z3.Implies(_RI_Q >= 0, _RNG_ITER(_RI_T, _RI_Q + 1) ==
                                                lib._RNG_NEXT(_RNG_ITER(_RI_T, _RI_Q), z3.IntVal(2))),
                     patterns=[_RNG_ITER(_RI_T, _RI_Q + 1)])]
+# Counter-model search only (verify._refine): ONE concrete interpretation of the generator-state functions under which
+# the recursive definition above holds.  Extra constraints can only lose counter-models, never create one.
+_HX, _HK = z3.Int("hint_x"), z3.Int("hint_k")
+REFUTE_HINTS = [
+    (("rng_next", "rng_iter"), z3.ForAll([_HX, _HK], lib._RNG_NEXT(_HX, _HK) == _HX + 1)),
+    (("rng_iter",), z3.ForAll([_HX, _HK], _RNG_ITER(_HX, _HK) == _HX + z3.If(_HK > 0, _HK, 0))),
+]
 
 
 def spec_rng_iter(I, st, a, k, n):
